@@ -130,8 +130,87 @@ def authCmd : List String → String
     | _, _, _, _, _, _, _ => "bad-op"
   | _ => "bad-op"
 
+structure CacheSlot where
+  name : String
+  isDir : Bool
+  maxDirSize : Nat
+  cache : Lru.Cache Nat
+
 structure St where
   handles : Handles.St := Handles.init 0
+  caches : List CacheSlot := []
+
+def findCache (st : St) (n : String) : Option CacheSlot := st.caches.find? (·.name == n)
+def setCache (st : St) (slot : CacheSlot) : St :=
+  { st with caches := slot :: st.caches.filter (·.name != slot.name) }
+
+def showRes : Lru.Res Nat → String
+  | .hit v => s!"hit {v}"
+  | .neg => "neg"
+  | .miss => "miss"
+
+def sec (n : Nat) : Nat := n * 1000000000
+
+def lruCmd (st : St) : List String → St × String
+  | ["newattr", name, cap, ttl] =>
+    match cap.toInt?, ttl.toNat? with
+    | some cap, some ttl =>
+      let c : Lru.Cache Nat :=
+        { entries := [], cap := Lru.effCap Gen.attrCacheDefaultSize cap, ttl := ttl,
+          negTtl := Gen.negTtlDefaultNs, enableNeg := false, hitAtEq := false }
+      (setCache st (CacheSlot.mk name false 0 c), "ok")
+    | _, _ => (st, "bad-op")
+  | ["newdir", name, cap, ttl, mds] =>
+    match cap.toInt?, ttl.toInt?, mds.toInt? with
+    | some cap, some ttl, some mds =>
+      let c : Lru.Cache Nat :=
+        { entries := [], cap := Lru.effCap Gen.dirCacheDefaultEntries cap,
+          ttl := Lru.effCap Gen.dirTtlDefaultNs ttl, negTtl := 0, enableNeg := false, hitAtEq := true }
+      (setCache st (CacheSlot.mk name true (Lru.effCap Gen.dirCacheDefaultMaxDirSize mds) c), "ok")
+    | _, _, _ => (st, "bad-op")
+  | "ischild" :: p :: d :: [] =>
+    match fromHex p, fromHex d with
+    | some p, some d => (st, if Lru.isChildOf p d then "1" else "0")
+    | _, _ => (st, "bad-op")
+  | cmd :: name :: args =>
+    match findCache st name with
+    | none => (st, "bad-op")
+    | some slot =>
+      let upd (nc : Lru.Cache Nat) := setCache st { slot with cache := nc }
+      match cmd, args with
+      | "put", [now, k, v] => match now.toNat?, fromHex k, v.toNat? with
+        | some now, some k, some v =>
+          if slot.isDir ∧ v > slot.maxDirSize then (st, "ok") else (upd (Lru.put slot.cache now k v), "ok")
+        | _, _, _ => (st, "bad-op")
+      | "putneg", [now, k] => match now.toNat?, fromHex k with
+        | some now, some k => (upd (Lru.putNegative slot.cache now k), "ok")
+        | _, _ => (st, "bad-op")
+      | "get", [now, k] => match now.toNat?, fromHex k with
+        | some now, some k => let r := Lru.get slot.cache now k; (upd r.1, showRes r.2)
+        | _, _ => (st, "bad-op")
+      | "inv", [k] => match fromHex k with
+        | some k => (upd (Lru.invalidate slot.cache k), "ok")
+        | none => (st, "bad-op")
+      | "invneg", [d] => match fromHex d with
+        | some d => (upd (Lru.invalidateNegativeInDir slot.cache d), "ok")
+        | none => (st, "bad-op")
+      | "invprefix", [d] => match fromHex d with
+        | some d => (upd (Lru.invalidatePrefix slot.cache d), "ok")
+        | none => (st, "bad-op")
+      | "resize", [n] => match n.toInt? with
+        | some n => (upd (Lru.resize slot.cache (Lru.effCap (if slot.isDir then Gen.dirCacheDefaultEntries else Gen.attrCacheDefaultSize) n)), "ok")
+        | none => (st, "bad-op")
+      | "ttl", [t] => match t.toInt? with
+        | some t => (upd (Lru.updateTTL slot.cache (Lru.effCap (if slot.isDir then Gen.dirTtlDefaultNs else Gen.attrTtlDefaultNs) t)), "ok")
+        | none => (st, "bad-op")
+      | "confneg", [en, t] => match en.toNat?, t.toInt? with
+        | some en, some t => (upd (Lru.configureNegative slot.cache (en == 1) t), "ok")
+        | _, _ => (st, "bad-op")
+      | "clear", [] => (upd (Lru.clear slot.cache), "ok")
+      | "size", [] => (st, toString slot.cache.entries.length)
+      | "order", [] => (st, ",".intercalate (slot.cache.entries.map fun e => toHex e.key ++ (if e.val.isNone then "!" else "")))
+      | _, _ => (st, "bad-op")
+  | _ => (st, "bad-op")
 
 def showLive (l : List (Nat × Bytes)) : String :=
   let sorted := l.toArray.qsort (fun a b => a.1 < b.1) |>.toList
@@ -165,6 +244,7 @@ def step (st : St) (line : String) : St × String :=
   | "access" :: args => (st, accessCmd args)
   | "auth" :: args => (st, authCmd args)
   | "handles" :: args => handlesCmd st args
+  | "lru" :: args => lruCmd st args
   | ["reset"] => ({}, "ok")
   | _ => (st, "bad-op")
 
